@@ -858,3 +858,141 @@ func mayBeLocalNil(v ssa.Value, seen map[ssa.Value]bool) string {
 	}
 	return ""
 }
+
+// ---------------------------------------------------------------- E-NILMAP-WRITE
+
+func init() {
+	register(&Rule{ID: "E-NILMAP-WRITE", Props: []string{"C03", "C18"}, Floor: 3,
+		Doc: "every map that evaluation writes to (an element assignment, the destination of maps.Copy / maps.Insert) is one the evaluator made itself (make, a composite literal, or a value derived from those); a map taken from the caller's data, or a clone of one (maps.Clone of a nil map is nil), may be a nil map, and writing to a nil map panics",
+		Run: ruleENilMapWrite})
+}
+
+// madeMap: v is a map this code allocated (never nil).
+func madeMap(v ssa.Value, b *ssa.BasicBlock, seen map[ssa.Value]bool) bool {
+	if seen[v] {
+		return true
+	}
+	seen[v] = true
+	if nonNilFact(b, v) {
+		return true
+	}
+	switch x := v.(type) {
+	case *ssa.MakeMap:
+		return true
+	case *ssa.Phi:
+		for i, e := range x.Edges {
+			if !madeMap(e, x.Block().Preds[i], seen) {
+				return false
+			}
+		}
+		return true
+	case *ssa.ChangeType:
+		return madeMap(x.X, b, seen)
+	case *ssa.UnOp:
+		if x.Op == token.MUL {
+			if al, ok := x.X.(*ssa.Alloc); ok {
+				n := 0
+				for _, ref := range *al.Referrers() {
+					if st, ok := ref.(*ssa.Store); ok && st.Addr == ssa.Value(al) {
+						n++
+						if !madeMap(st.Val, st.Block(), seen) {
+							return false
+						}
+					}
+				}
+				return n > 0
+			}
+			if fa, ok := x.X.(*ssa.FieldAddr); ok {
+				// a field of a local object: every store to that field of that object
+				if al, ok := fa.X.(*ssa.Alloc); ok {
+					n := 0
+					for _, ref := range *al.Referrers() {
+						if fa2, ok := ref.(*ssa.FieldAddr); ok && fa2.Field == fa.Field {
+							for _, r2 := range *fa2.Referrers() {
+								if st, ok := r2.(*ssa.Store); ok && st.Addr == ssa.Value(fa2) {
+									n++
+									if !madeMap(st.Val, st.Block(), seen) {
+										return false
+									}
+								}
+							}
+						}
+					}
+					return n > 0
+				}
+			}
+		}
+	case *ssa.Call:
+		if callee := calleeOf(&x.Call); callee != nil && len(callee.Blocks) > 0 && callee.Pkg != nil && strings.HasPrefix(callee.Pkg.Pkg.Path(), modPath) {
+			if _, isTuple := x.Type().(*types.Tuple); !isTuple {
+				rets := returnsOf(callee)
+				for _, ret := range rets {
+					if len(ret.Results) != 1 || !madeMap(ret.Results[0], ret.Block(), seen) {
+						return false
+					}
+				}
+				return len(rets) > 0
+			}
+		}
+	case *ssa.Parameter:
+		fn := x.Parent()
+		if obj := fn.Object(); obj == nil || obj.Exported() {
+			return false
+		}
+		idx := -1
+		for i, q := range fn.Params {
+			if q == x {
+				idx = i
+			}
+		}
+		sites := callSitesOf(fn)
+		if idx < 0 || len(sites) == 0 {
+			return false
+		}
+		for _, s := range sites {
+			args := s.Common().Args
+			if s.Common().IsInvoke() || idx >= len(args) || !madeMap(args[idx], s.Block(), seen) {
+				return false
+			}
+		}
+		return true
+	}
+	return false
+}
+
+func ruleENilMapWrite(p *Program, r *Reporter) {
+	for _, fn := range p.ReachFuncs(p.Eval, p.Root) {
+		name := p.FuncName(fn)
+		n := 0
+		for _, b := range fn.Blocks {
+			for _, in := range b.Instrs {
+				var m ssa.Value
+				what := ""
+				switch x := in.(type) {
+				case *ssa.MapUpdate:
+					m, what = x.Map, "element assignment"
+				case ssa.CallInstruction:
+					switch calleeFullName(x.Common()) {
+					case "maps.Copy", "maps.Insert":
+						if len(x.Common().Args) > 0 {
+							m, what = x.Common().Args[0], calleeFullName(x.Common())
+						}
+					}
+				}
+				if m == nil {
+					continue
+				}
+				if _, isMap := m.Type().Underlying().(*types.Map); !isMap {
+					continue
+				}
+				n++
+				key := fmt.Sprintf("%s map write#%d (%s)", name, n, what)
+				if madeMap(m, b, map[ssa.Value]bool{}) {
+					r.OK(in.Pos(), key, "the map written to was made by the evaluator (or is tested not to be nil)")
+				} else {
+					r.Bad(instrPos(in), key, "the map written to ("+describeAddr(m)+") may be a nil map (taken from the data, or a clone of such a map): writing to a nil map panics")
+				}
+			}
+		}
+	}
+}
